@@ -42,13 +42,17 @@ class IntervalCounter:
 
 def zip_directory(source_directory, output=None):
     output = output or f"{source_directory}.zip"
-    with zipfile.ZipFile(output, "w", zipfile.ZIP_DEFLATED) as f:
+    # Write to a temporary name and rename: a process killed half way must never leave a
+    # truncated archive under the final name (restore() would delete the folder for it).
+    temporary = f"{output}.tmp"
+    with zipfile.ZipFile(temporary, "w", zipfile.ZIP_DEFLATED) as f:
         for root, dirs, files in os.walk(source_directory):
             for file in files:
                 f.write(
                     os.path.join(root, file),
                     os.path.join(root[len(str(source_directory)) :], file),
                 )
+    os.replace(temporary, output)
 
 
 def open_(filename, *flags):
